@@ -610,6 +610,11 @@ def template_project():
         b = mk(ids, "bound", "NOther", "b", perm, doc)
         b["target"] = tg
         t["children"].append(["boundprocs", b])
+    # final procedures: a documented one, and an undocumented one whose target subroutine is documented
+    for doc, tg in ((True, targets[0]), (False, targets[1])):
+        fn = mk(ids, "final", "NOther", "fin", "public", doc)
+        fn["target"] = tg
+        t["children"].append(["finalprocs", fn])
     t2 = mk(ids, "type", "NType", "t", "private", True)
     t2["comp_default"] = t2["bind_default"] = None
     t2["children"] = [["variables", mk(ids, "comp", "NOther", "c", "public", True)]]
@@ -629,6 +634,18 @@ def template_project():
                      ["interfaces", k1], ["interfaces", k2], ["absinterfaces", ai]]
     for perm, doc in (("public", True), ("private", True), ("protected", True), ("public", False)):
         m["children"].append(["variables", mk(ids, "var", "NOther", "v", perm, doc)])
+    # an undocumented common block and an undocumented namelist naming documented variables, an enum with an
+    # undocumented enumerator
+    cb = mk(ids, "common", "NCommon", "cb", "public", False)
+    cb["children"] = [["variables", mk(ids, "commonvar", "NOther", "cv", "public", False)]]
+    cb2 = mk(ids, "common", "NCommon", "cb", "public", True)
+    cb2["children"] = [["variables", mk(ids, "commonvar", "NOther", "cv", "public", False)]]
+    mnl = mk(ids, "namelist", "NOther", "nl", "private", False)
+    mnl["vars"] = [c["name"] for l, c in m["children"] if l == "variables"][:2]
+    en = mk(ids, "enum", "NEnum", "en", "private", True)
+    en["children"] = [["variables", mk(ids, "enumerator", "NOther", "e", "private", True)],
+                      ["variables", mk(ids, "enumerator", "NOther", "e", "private", False)]]
+    m["children"] += [["enums", en], ["common", cb], ["common", cb2], ["namelists", mnl]]
     m["children"] += [["subroutines", p_pub], ["functions", p_priv], ["subroutines", p_undoc]]
     pg = mk(ids, "program", "NProgram", "pg", "public", True)
     pg["children"] = [["variables", mk(ids, "var", "NOther", "v", "public", True)],
